@@ -57,11 +57,35 @@ theorem roundHalfUp_tie_neg {fl : α → α} (hfi : ∀ z : ℤ, fl (z : α) = z
   have e : - -((k : α) + half) + half = ((k + 1 : ℤ) : α) := by push_cast; linarith
   rw [e, hfi]; push_cast; ring
 
-/-- the numeric services are exact: `trig` returns points of the unit circle, `floor` is a floor, `half` is 1/2 -/
+/-- specification of the rounding service (`Decimal(v).to_integral_value(ROUND_HALF_UP)` on exact values):
+integer-valued, within 1/2 of the argument — all the statement asks of it ("integer x,y,z with |shift| ≤ 0.5") -/
+def RoundSpec (r : α → α) : Prop := ∀ v, IsInt (r v) ∧ |v - r v| ≤ 1 / 2
+
+/-- … and the tie rule of ROUND_HALF_UP: halves go away from zero -/
+def TiesAway (r : α → α) : Prop :=
+  ∀ k : ℕ, r ((k : α) + 1 / 2) = (k : α) + 1 ∧ r (-((k : α) + 1 / 2)) = -((k : α) + 1)
+
+/-- the floor formula, with ANY floor service meeting the floor specification, is such a rounding
+(the theorems that used to ask for `FloorSpec sv.floor` and `sv.half + sv.half = 1` now ask for `RoundSpec sv.round`;
+this lemma turns the old hypotheses into the new one) -/
+theorem roundSpec_of_floor {fl : α → α} (hf : FloorSpec fl) {half : α} (hh : half + half = 1) :
+    RoundSpec (roundHalfUp fl half) := by
+  intro v
+  have hhalf : half = 1 / 2 := by linarith
+  refine ⟨roundHalfUp_isInt hf _ _, ?_⟩
+  rw [← hhalf]; exact abs_sub_roundHalfUp hf hh v
+
+theorem tiesAway_of_floor {fl : α → α} (hfi : ∀ z : ℤ, fl (z : α) = z) {half : α} (hh : half + half = 1) :
+    TiesAway (roundHalfUp fl half) := by
+  intro k
+  have hhalf : half = 1 / 2 := by linarith
+  rw [← hhalf]
+  exact ⟨roundHalfUp_tie_pos hfi hh k, roundHalfUp_tie_neg hfi hh k⟩
+
+/-- the numeric services are exact: `trig` returns points of the unit circle, `round` is a rounding to a nearest integer -/
 structure Svc.Exact (sv : Svc α) : Prop where
   unit : ∀ x, (sv.trig x).IsUnit
-  floor : FloorSpec sv.floor
-  half : sv.half + sv.half = 1
+  round : RoundSpec sv.round
 
 /-- the floor of any `FloorRing` (e.g. ℚ, ℝ) meets the specification -/
 theorem floorSpec_floorRing [FloorRing α] : FloorSpec (fun v : α => ((⌊v⌋ : ℤ) : α)) := by
@@ -70,5 +94,19 @@ theorem floorSpec_floorRing [FloorRing α] : FloorSpec (fun v : α => ((⌊v⌋ 
 
 theorem floor_int_floorRing [FloorRing α] (z : ℤ) : (fun v : α => ((⌊v⌋ : ℤ) : α)) (z : α) = z := by
   simp
+
+/-- the driver's rounding — `roundHalfUp` evaluated at `Rat` with `Rat.floor` — is exact rounding half away from zero -/
+theorem ratRound_eq (q : ℚ) : ratRound q = roundHalfUp (fun v : ℚ => ((⌊v⌋ : ℤ) : ℚ)) (1 / 2) q := by
+  have h : (fun v : ℚ => ((v.floor : ℤ) : ℚ)) = (fun v : ℚ => ((⌊v⌋ : ℤ) : ℚ)) := rfl
+  unfold ratRound
+  rw [h]
+
+theorem ratRound_spec : RoundSpec ratRound := by
+  intro v; rw [ratRound_eq]
+  exact roundSpec_of_floor floorSpec_floorRing (by norm_num) v
+
+theorem ratRound_ties : TiesAway ratRound := by
+  intro k; rw [ratRound_eq, ratRound_eq]
+  exact tiesAway_of_floor (fun z => floor_int_floorRing z) (by norm_num) k
 
 end CryoCat.C10
